@@ -308,7 +308,15 @@ fn accepted<C: Worlds>(sel: u8, b: &[u8]) -> bool {
 // corpus replay and libFuzzer campaigns (extra stage)
 
 pub fn corpus_replay(prop: &str, out: &mut ExtraOut) {
+    corpus_replay_one(prop, "decode", out);
+    corpus_replay_one(prop, "proto", out);
+}
+
+pub fn corpus_replay_one(prop: &str, which: &str, out: &mut ExtraOut) {
     for (target, dir) in [("decode", "corpus/decode"), ("proto", "corpus/proto")] {
+        if target != which {
+            continue;
+        }
         let path = PathBuf::from(format!("{VERIF_DIR}/{dir}"));
         let mut files: Vec<PathBuf> = std::fs::read_dir(&path).map(|d| d.filter_map(|e| e.ok()).map(|e| e.path()).filter(|p| p.is_file()).collect()).unwrap_or_default();
         files.sort();
